@@ -151,3 +151,23 @@ Example C09_failed_op_restored_nonvacuous :
   let sh2 := run_h (step_h sort_pnames_fixed) [OWriteRgs [[(w_dir, [20]%N)]] SKNone false] sh1 in
   map snd (abs (fst sh2)) = [[0; 1; 2]; [20]]%N.
 Proof. exact failed_op_restored_ok. Qed.
+
+(* ======================= wave 4: a failed operation of ANY kind that writes data, at ANY failure position =======================
+   (append / overwrite / write_row_groups failing after j new part files, the last possibly torn): the handle is exactly the handle
+   before the operation and equals a fresh open; summary, num_rows and abstract content on disk are as before; every referenced file is
+   untouched (well-formed new data).  This is what the harnesses compare after every failed step (pf.fmd against a fresh open: C07
+   failed_first, C18 continuation, C19 same-handle retry). *)
+Theorem C09_failed_op_state_unchanged : forall s o j torn,
+  let sh' := fail_op (s, open_h s) o j torn in
+  snd sh' = open_h s /\ coherent sh' /\ st_sum (fst sh') = st_sum s /\ st_num (fst sh') = st_num s /\ abs (fst sh') = abs s
+  /\ (wf_op o -> forall e, In e (st_sum s) -> lookup (fst e) (st_dir (fst sh')) = lookup (fst e) (st_dir s)).
+Proof. exact failed_op_state_unchanged. Qed.
+Print Assumptions C09_failed_op_state_unchanged.
+
+(* continuing on the same handle after the failure = continuing with fresh handles from the (unchanged) dataset *)
+Theorem C09_continue_after_failed_op : forall s o j torn ops,
+  let s1 := fst (fail_op (s, open_h s) o j torn) in
+  run_h (step_h sort_pnames_fixed) ops (fail_op (s, open_h s) o j torn)
+  = (run sort_pnames_fixed ops s1, open_h (run sort_pnames_fixed ops s1)).
+Proof. exact (continue_after_failed_op sort_pnames_fixed). Qed.
+Print Assumptions C09_continue_after_failed_op.
